@@ -539,7 +539,12 @@ def _integrate(spec, env, alg):
             except IllPosed:
                 return float('nan')
 
-        v, err = quad(f, -np.inf, np.inf, epsabs=1e-12, epsrel=1e-12, limit=400)
+        import warnings
+
+        with warnings.catch_warnings():
+            warnings.simplefilter('ignore')
+            # the standard normal density underflows beyond |w| = 38: finite range, no overflow games
+            v, err = quad(f, -38.0, 38.0, epsabs=1e-13, epsrel=1e-12, limit=800, points=[-6, -2, 0, 2, 6])
         if not math.isfinite(v):
             raise IllPosed('integral not finite')
         return EV(v, abs(err) + 1e-7 * abs(v) + 1e-10, False)
@@ -551,7 +556,7 @@ def _integrate(spec, env, alg):
         return j
 
     def q(fun):
-        v, _ = quad(fun, -np.inf, np.inf, epsabs=1e-11, epsrel=1e-11, limit=400)
+        v, _ = quad(fun, -38.0, 38.0, epsabs=1e-12, epsrel=1e-11, limit=800, points=[-6, -2, 0, 2, 6])
         return v
 
     v = q(lambda x: comp(x).v)
